@@ -562,6 +562,10 @@ class SparselyBin(Factory, Container):
                     except ValueError:
                         raise JsonFormatException(i, "SparselyBin.bins key must be an integer")
 
+                if len({int(i) for i in json["bins"]}) != len(json["bins"]):
+                    # "1" and "01" denote the same bin: keeping one of the two would silently drop the other
+                    raise JsonFormatException(json["bins"], "SparselyBin.bins keys must denote distinct bin indices")
+
                 bins = {int(i): binsFactory.fromJsonFragment(v, binsName) for i, v in json["bins"].items()}
 
             else:
